@@ -300,7 +300,41 @@ func (r *runner) flush() {
 	r.batch = r.batch[:0]
 }
 
+// runSeq: a sequence case (monitor only).
+func (r *runner) runSeq(c *Case) {
+	o, q, err := executeSeq(c, r.kr)
+	if err != nil {
+		r.res.Note("case skipped: " + err.Error())
+		return
+	}
+	r.res.Count(c.key(), true)
+	r.classify(c, o)
+	r.res.Hit(fmt.Sprintf("seq-steps-checked:%d", q.steps))
+	r.monitor(c, o)
+	for i, b := range q.bad {
+		r.res.Violate(strings.ReplaceAll(c.Fn, ".", "-")+"-"+slugify(b), q.what[i], c)
+	}
+}
+
+func slugify(s string) string {
+	var sb strings.Builder
+	for _, ch := range strings.ToLower(s) {
+		switch {
+		case ch >= 'a' && ch <= 'z', ch >= '0' && ch <= '9', ch == '-':
+			sb.WriteRune(ch)
+		case ch == '#':
+		default:
+			sb.WriteByte('-')
+		}
+	}
+	return strings.Trim(strings.ReplaceAll(sb.String(), "--", "-"), "-")
+}
+
 func (r *runner) run(c *Case) {
+	if strings.HasPrefix(c.Fn, "seq.") {
+		r.runSeq(c)
+		return
+	}
 	o, err := execute(c, r.kr)
 	if err != nil {
 		r.res.Note("case skipped: " + err.Error())
@@ -498,6 +532,31 @@ func (r *runner) structuredWire(g *gen) {
 			}
 		}
 	}
+	// RSA signatures one byte short (the genuine signature's leading zero byte stripped) with
+	// room behind them for the missing byte: nothing may be shifted or padded in the caller's array
+	for _, alg := range []string{"RS256", "RS384", "RS512", "PS256", "PS384", "PS512"} {
+		d, sg := g.kr.leadingZeroSig(alg)
+		if sg == nil {
+			r.res.Note("no leading-zero signature found for " + alg)
+			continue
+		}
+		for _, sp := range []int{1, 2, 17, 64} {
+			for lay := 0; lay < 3; lay++ {
+				c := &Case{Fn: "crypto.VerifyPublicKey", Alg: alg, KeyKind: "rsaPub", Auth: true, Prim: true, Sig: false, OutLen: -1,
+					Path: "leading-zero-stripped-signature"}
+				reqs := []req{{name: "digest", data: d, spare: sp}, {name: "signature", data: sg[1:], spare: sp}}
+				switch lay {
+				case 0:
+					g.layout(c, reqs)
+				case 1:
+					g.layoutWire(c, reqs, []int{0, 1}, 0)
+				case 2:
+					g.layoutWire(c, reqs, []int{1, 0}, 0)
+				}
+				r.run(c)
+			}
+		}
+	}
 	r.flush()
 }
 
@@ -580,6 +639,7 @@ func main() {
 		{150, g.cbcAeadNewCase}, {1500, g.cbcSealCase}, {1500, g.cbcOpenCase},
 		{3000, g.encSymCase}, {4000, g.decSymCase},
 		{400, g.encPubCase}, {400, g.decPrivCase}, {400, g.signCase}, {500, g.verifyCase}, {500, g.parseKeyCase},
+		{1200, g.seqCase},
 	}
 	for _, f := range fams {
 		for i := 0; i < f.n*mult; i++ {
